@@ -17,7 +17,7 @@ class Scn:
         s = Scn(); s.lines = list(pre) + list(self.lines); return s
 
 class OpRes:
-    def __init__(self, no, name): self.no, self.name = no, name; self.kv = {}; self.lines = []; self.out = None; self.outlen = None; self.work = {}; self.declared = None; self.written = None
+    def __init__(self, no, name): self.no, self.name = no, name; self.kv = {}; self.lines = []; self.out = None; self.outlen = None; self.outname = None; self.vars = (); self.work = {}; self.declared = None; self.written = None
     def __repr__(self): return "<op %d %s %s>" % (self.no, self.name, self.kv)
 
 class Transcript:
@@ -27,18 +27,18 @@ class Transcript:
         return [(o.name, o.kv.get("st"), o.kv.get("ok"), o.kv.get("err"), tuple(o.lines), o.out, o.outlen) for o in self.ops]
 
 def parse(block_lines):
-    t = Transcript(); cur = None
+    t = Transcript(); cur = None; curvars = ()
     for l in block_lines:
         t.raw.append(l)
         if l.startswith("op "):
-            p = l.split(); cur = OpRes(int(p[1]), p[2]); t.ops.append(cur)
+            p = l.split(); cur = OpRes(int(p[1]), p[2]); cur.vars = curvars; t.ops.append(cur)
             for tok in p[3:]:
                 if "=" in tok: k, v = tok.split("=", 1); cur.kv[k] = v
                 else: cur.kv[tok] = "1"
         elif l.startswith("out ") and cur is not None:
             m = re.match(r"out (\S+) len=(\d+) (hex|fnv)=(\S*)", l)
-            if m: cur.outlen = int(m.group(2)); cur.out = m.group(4)
-            else: cur.out = "absent"
+            if m: cur.outlen = int(m.group(2)); cur.out = m.group(4); cur.outname = m.group(1)
+            else: cur.out = "absent"; cur.outname = l.split()[1] if len(l.split()) > 1 else None
         elif l.startswith("declared ") and cur is not None:
             p = l.split(); cur.declared = int(p[1]); cur.written = int(p[3])
         elif l.startswith("work ") and cur is not None:
@@ -51,6 +51,7 @@ def parse(block_lines):
         elif l.startswith("calls"):
             for tok in l.split()[1:]:
                 k, v = tok.split("=", 1); t.calls[k] = int(v)
+        elif l.startswith("vars"): curvars = tuple(l.split()[1:])
         elif l.startswith("HANG"): t.hang = True
         elif l.startswith("END "): t.complete = True
         elif l.startswith("cb "): pass
